@@ -266,4 +266,18 @@ def niceOKB (ftol : Rat) (d0 d1 m n0 n1 : Rat) : Bool :=
   decide (lo - nlo < 2 * step + 2 * tol) && decide (nhi - hi < 2 * step + 2 * tol) &&
   nearMultipleB (step / 10) tol nlo && nearMultipleB (step / 10) tol nhi
 
+/-- `niceOKB` without its last clause (the roundness of the two ends) -/
+def niceOKNoRoundB (ftol : Rat) (d0 d1 m n0 n1 : Rat) : Bool :=
+  let step := (tickRange n0 n1 m).2.2
+  if d0 = d1 then n0 == d0 && n1 == d1 else
+  if step ≤ 0 then false else
+  let tol := step / 1000000000 + ftol
+  let lo := ratMin d0 d1
+  let hi := ratMax d0 d1
+  let nlo := ratMin n0 n1
+  let nhi := ratMax n0 n1
+  (decide (d0 < d1) == decide (n0 < n1)) &&
+  decide (nlo ≤ lo + tol) && decide (hi ≤ nhi + tol) &&
+  decide (lo - nlo < 2 * step + 2 * tol) && decide (nhi - hi < 2 * step + 2 * tol)
+
 end Labella.Scale
